@@ -12,7 +12,11 @@ C13  Symbols are classified by their declared type and share it by scope.
      the scope; the setter writes the private copy only when unattached, every
      other path writes the scope's symbol table (exact truth table of both
      accessors).  ``MetaSymbol.type`` delegates to the wrapped symbol.
- R3  the look-up consults the scope's table with the symbol's full name first.
+ R3  the look-up consults the scope's table with the symbol's full name first, and
+     the type recorded there outranks anything derived from the parent's typedef:
+     a return of another value is reachable only if nothing (or no dtype) was
+     recorded -- the guards on the recorded type are evaluated for the three cases
+     no entry / entry without dtype / entry with dtype.
 Not decided: derived-type member look-up through parents, clone/rescope histories.
 """
 import ast
@@ -165,9 +169,46 @@ def run(ctx):
     ok = isinstance(first, ast.Assign) and 'scope.symbol_attrs.lookup(name)' in ast.unparse(first.value)
     (ctx.judge('R3', '_get_type_from_scope') if ok else
      ctx.violation('R3', 'Variable._get_type_from_scope', gt.where, 'type look-up does not start from scope.symbol_attrs.lookup(name)'))
+    import types as _types
+    from sa.miniev import ev_ext, Unknown
+    for fn_, first_ in ((gt, first), (lt, X.first_stmt(lt.node))):
+        if not isinstance(first_, ast.Assign) or not isinstance(first_.targets[0], ast.Name):
+            continue
+        stn = first_.targets[0].id
+        alts = [(r, g) for r, g in X.nodes_with_guards(fn_.node, lambda x: isinstance(x, ast.Return) and x.value is not None, early=True)
+                if ast.unparse(r.value) != stn and not (isinstance(r.value, ast.Constant) and r.value.value is None)]
+        for r, guards in alts:
+            rel = [g for g in guards if stn in g]
+            inst = f'{fn_.qualname}:return {ast.unparse(r.value)[:40]}'
+            if not rel:
+                ctx.violation('R3', f'{fn_.qualname}:recorded-type-outranked', f'{fn_.module.relpath}:{r.lineno}',
+                              f'`return {ast.unparse(r.value)}` does not depend on whether a type is recorded for the name (`{stn}`): the '
+                              f'parent\'s typedef overrides the type recorded in the scope (a later update of that entry is lost)',
+                              instance=inst)
+                continue
+            bad = None
+            for label, obj in (('entry with dtype', _types.SimpleNamespace(dtype='T')),):
+                env = {stn: obj, 'name': 'r%b', 'self': _types.SimpleNamespace(name='r%b')}
+                try:
+                    fires = all(bool(ev_ext(ast.parse(g, mode='eval').body, env)) for g in rel)
+                except Unknown:
+                    fires = False       # a guard outside the evaluated fragment is not taken to hold
+                if fires:
+                    bad = label
+            if bad:
+                ctx.violation('R3', f'{fn_.qualname}:recorded-type-outranked', f'{fn_.module.relpath}:{r.lineno}',
+                              f'`return {ast.unparse(r.value)}` is reachable under `{" and ".join(rel)}` although the scope has an {bad} '
+                              f'for the name: the parent\'s typedef overrides the recorded type (an update of the entry is lost and '
+                              f'overwritten by the constructor)', instance=inst)
+            else:
+                ctx.judge('R3', inst, facts={'guards': rel})
 
 
 MUTANTS = [
+    Mutant('typedef-outranks-recorded-type', FILE, "        if '%' in name and (not stored_type or not stored_type.dtype):", "        if '%' in name:",
+           expect=('R3', 'recorded-type-outranked')),
+    Mutant('neutral-guard-demorgan', FILE, "        if '%' in name and (not stored_type or not stored_type.dtype):", "        if '%' in name and not (stored_type and stored_type.dtype):",
+           expect=None),
     Mutant('array-before-procedure', FILE,
            "        if _type and isinstance(_type.dtype, ProcedureType):\n            # This is the name in a function/subroutine call\n            return ProcedureSymbol(**kwargs)\n",
            "", expect=('R1', 'tier-order'), quick=True),
